@@ -18,7 +18,7 @@
 EXTENDS Naturals, Sequences, FiniteSets, TLC, Json
 
 CONSTANTS EscMode,      \* "none" | "markupsafe"
-          LinkStyle,    \* "code" | "fixed"
+          LinkStyle,    \* "code" | "fixed" | "samepage" | "sameprefix"
           MaxTok,       \* payloads are sequences of 0..MaxTok special tokens
           Part,         \* "text" | "links" | "both"
           Chains        \* BOOLEAN: shapes with a third type (nested rendering inside nested rendering)
@@ -197,13 +197,17 @@ TextStims == {[kind |-> "text", pl |-> pl, ctx |-> c] : pl \in Payloads, c \in {
 
 (* ============================================ Part B: links ============================================= *)
 R1 == <<122, 113, 114, 97>>   R2 == <<122, 113, 114, 98>>   NS_S == <<122, 113, 115>>   NS_U == <<122, 113, 117>>
-TN1 == <<90, 113, 116, 49>>   TN2 == <<90, 113, 116, 50>>   TN3 == <<90, 113, 116, 51>>
+(* names that are STRING prefixes of each other without being ancestors: root zqrax next to root zqra, nested zqra.zqsx next to   *)
+(* zqra.zqs, and type short names that extend the name of a nested namespace (zqra.zqsZqt1 next to namespace zqra.zqs,            *)
+(* zqra.zqs.zquZqt2 next to zqra.zqs.zqu): "listed on this page" must be decided on name COMPONENTS, never on string prefixes     *)
+R1X == <<122, 113, 114, 97, 120>>     NS_SX == <<122, 113, 115, 120>>
+TN1 == <<122, 113, 115, 90, 113, 116, 49>>   TN2 == <<122, 113, 117, 90, 113, 116, 50>>   TN3 == <<90, 113, 116, 51>>
 V10 == <<95, 49, 95, 48>>     DOTHTML == <<46, 104, 116, 109, 108>>
 UPDIR == <<46, 46, 47>>       SLHASH == <<47, 35>>
 REQ == <<82, 101, 113, 117, 101, 115, 116>>     RESP == <<82, 101, 115, 112, 111, 110, 115, 101>>
 USC == 95
 
-Namespaces == { <<R1>>, <<R1, NS_S>>, <<R1, NS_S, NS_U>>, <<R2>> }
+Namespaces == { <<R1>>, <<R1, NS_S>>, <<R1, NS_S, NS_U>>, <<R2>>, <<R1X>>, <<R1, NS_SX>> }
 Hows   == {"plain", "farr", "varr"}
 SKinds == {"struct", "union", "delimited", "service_req", "service_resp"}
 DKinds == {"struct", "union", "delimited", "deprecated"}
@@ -237,9 +241,15 @@ IdsOf(sh) == {<<Append(p[1], P!N_index_html), TagId(p[2], <<>>)>> : p \in NT(sh)
              \cup {<<Append(p[1], P!N_index_html), Join(p[2], USC, 1)>> : p \in NM(sh)}
 
 (* the hyperlink for a reference to type t (sub = Request/Response for the halves of a service) on the page of n *)
+DOTC == 46
+Climb(n, t) == Rep(UPDIR, Len(n)) \o t.ns[1] \o SLHASH \o TagId(t, <<>>)
 Href(style, n, t, sub) ==
     IF style = "code" THEN UPDIR \o t.ns[1] \o SLHASH \o TagId(t, sub)
-    ELSE Rep(UPDIR, Len(n)) \o t.ns[1] \o SLHASH \o TagId(t, <<>>)
+    ELSE IF style = "fixed" THEN Climb(n, t)
+    \* a type listed on the page itself is linked by its bare anchor: decided on name components ...
+    ELSE IF style = "samepage" THEN (IF IsPrefix(n, t.ns) THEN <<35>> \o TagId(t, <<>>) ELSE Climb(n, t))
+    \* ... or (wrongly) on the dotted names as strings: zqra.zqs is a string prefix of zqra.zqsx.T and of zqra.zqsZqt1
+    ELSE (IF IsPrefix(Join(n, DOTC, 1), Join(Append(t.ns, t.name), DOTC, 1)) THEN <<35>> \o TagId(t, <<>>) ELSE Climb(n, t))
 
 (* references rendered (recursively) inside the entry of type t: <<referenced type, sub>>                       *)
 RefsIn(sh, t) ==
@@ -309,7 +319,7 @@ Emit == phase = "done" =>
                          pred_none |-> Predict("none", "pre", Flat(stim.pl, 1)).clauses,
                          pred_esc  |-> Predict("markupsafe", "pre", Flat(stim.pl, 1)).clauses])))
     ELSE PrintT(ToJson([kind |-> "links", src |-> stim.src, dst |-> stim.dst, how |-> stim.how, skind |-> stim.skind,
-                        dkind |-> stim.dkind, chain |-> stim.chain,
+                        dkind |-> stim.dkind, chain |-> stim.chain, names |-> <<TN1, TN2, TN3>>,
                         pages |-> PagesOf(stim),
                         links_code |-> {[from |-> lk.from, href |-> lk.href] : lk \in LinksOf("code", stim)},
                         links_fixed |-> {[from |-> lk.from, href |-> lk.href] : lk \in LinksOf("fixed", stim)},
